@@ -263,7 +263,9 @@ def runFMP4 (c : Case) : List String :=
       | s :: rest =>
         match s.processSegments conv (segsOf i) with
         | .error e => .error e
-        | .ok (_, conv', ds) =>
+        | .ok (s', conv', ds) =>
+          -- repair of F15: a leading stream that reaches its end without track processors (every segment was empty) errors
+          if (Hls.Gen.Robust.fmp4LeadingEndNeedsOrigin && s'.isLeading && s'.procs.isNone) = true then .error .noLeadingData else
           match go rest (i + 1) conv' with
           | .error e => .error e
           | .ok ds' => .ok (ds ++ ds')
